@@ -25,6 +25,22 @@ WORLD_NOTE = ('Modelled not verified: the dependency check inside BoundRoute.__i
               'application and of every Route object look for. ')
 
 CLAIMED = {
+ 'C14': dict(
+   text=('Theorems (Props/C14.v) over a Gallina transcription of os.path.normpath (POSIX), find_file and the decision '
+         'structure of build_file_response/get_file_response with an oracle answering (or failing) every filesystem call: '
+         'normpath of any string is a run of ".." (none if absolute) followed by ordinary components; for EVERY request path a '
+         'disclosed file is root/rel with rel made of ordinary components only (so, symlink-free, inside that root); a path whose '
+         'normal form is absolute or begins with ".." is refused; every regular file at root_i/rel is found at rel, first root '
+         'winning; whatever the filesystem answers the outcome is 200/304/non-breaking 403/404 - this last theorem is about the '
+         'guard table REGENERATED from static.py (which calls sit in a try block yielding a non-breaking Forbidden, the 304 '
+         'comparison, the order of find_file\'s steps); 200 only with the selected file; conditional => 304. Tie: translator + '
+         'generated directory trees served directly / under prefixes / by overlapping applications with injected OS errors, '
+         'bodies compared byte-for-byte.'),
+   note=COMMON_NOTE + 'Modelled not verified: the kernel filesystem (symlink-free tree assumed, isfile never raises), os.path.normpath '
+        '(C implementation in 3.12; the Gallina transcription is compared on every request path), mimetypes, werkzeug FileWrapper/'
+        'Response/conditional-date parsing; Windows colon rule outside the model.',
+   technique='Coq proof (stack invariant of normpath, string lemmas for confinement/completeness, case analysis over fault oracles on a guard table generated from the source) + translator + extracted-model differential check with fault injection',
+   design='6/C14'),
  'C10': dict(
    text=('Theorems (Props/C10.v) over Model/World.v (application trees of any depth; bind_entry = Application.add / '
          'SubApplication.bind_all / BoundRoute.__init__ on routes and on already bound routes): a re-bound route has the '
